@@ -54,6 +54,29 @@ def swapIdx {α} (l : List α) (i j : Nat) : Option (List α) :=
   | some a, some b => some ((l.set i b).set j a)
   | _, _ => none
 
+/-- `l.mapM f` for `Option`, written out -/
+def mapOpt {α β} (f : α → Option β) : List α → Option (List β)
+  | [] => some []
+  | a :: as =>
+    match f a with
+    | none => none
+    | some b =>
+      match mapOpt f as with
+      | none => none
+      | some bs => some (b :: bs)
+
+/-- `for idx in lo..hi { l[idx] = f(idx, l[idx]) }` for updates that only read the entry they replace
+(the head of the list has index `idx`); `none` when `f` panics or when the list is shorter than `hi`. -/
+def updRange {α} (f : Nat → α → Option α) (lo hi : Nat) : List α → Nat → Option (List α)
+  | [], idx => if idx < hi then none else some []
+  | v :: vs, idx =>
+    match (if lo ≤ idx ∧ idx < hi then f idx v else some v) with
+    | none => none
+    | some v' =>
+      match updRange f lo hi vs (idx + 1) with
+      | none => none
+      | some vs' => some (v' :: vs')
+
 /-- `lo..hi` -/
 def rangeFrom (lo hi : Nat) : List Nat := (List.range (hi - lo)).map (· + lo)
 
@@ -186,13 +209,13 @@ def St.normalize (s : St) (i k : Nat) : Option St :=
               let x := x % h
               if Int.gcd x h ≠ 1 then none                -- debug_assert
               else
-                forM (List.range s.gens.length) s (fun s k =>
-                  match get2 s.rows i k with
+                -- for k in 0..gens.len() { rows[i][k] = modh(rows[i][k] * x) }
+                match s.rows[i]? with
+                | none => none
+                | some row =>
+                  match updRange (fun _ vi => s.mulMod vi x) 0 s.gens.length row 0 with
                   | none => none
-                  | some vi =>
-                    match s.mulMod vi x with
-                    | none => none
-                    | some r => (set2 s.rows i k r).map (fun rows => { s with rows := rows }))
+                  | some row' => some { s with rows := s.rows.set i row' }
 
 /-! ### submul_n / eliminate -/
 
@@ -226,16 +249,16 @@ def St.submulN (s : St) (i j : Nat) (m : List Int) : Option St :=
   else if j + n > s.gens.length then none                  -- assert
   else
     let small : Bool := 0 < s.h ∧ s.h < 2 ^ 63 / n
-    forM (rangeFrom j s.gens.length) s (fun s idx =>
-      match get2 s.rows i idx with
-      | none => none
-      | some x0 =>
-        match subProducts (if small then chk128 else chk256) s.rows j idx m 0 x0 with
-        | none => none
-        | some x =>
-          match (if small then s.modh128 x else s.modh256 x) with
+    -- for idx in j..gens.len() { rows[i][idx] = modh(rows[i][idx] - Σ m[k] * rows[j+k][idx]) }
+    match s.rows[i]? with
+    | none => none
+    | some row =>
+      match updRange (fun idx x0 =>
+          match subProducts (if small then chk128 else chk256) s.rows j idx m 0 x0 with
           | none => none
-          | some r => (set2 s.rows i idx r).map (fun rows => { s with rows := rows }))
+          | some x => if small then s.modh128 x else s.modh256 x) j s.gens.length row 0 with
+      | none => none
+      | some row' => some { s with rows := s.rows.set i row' }
 
 /-- `a * x + b * y` with checks -/
 def lin2 (chk : Int → Option Int) (a x b y : Int) : Option Int :=
@@ -263,28 +286,27 @@ def St.eliminate (s : St) (i j k : Nat) : Option St :=
             | some nxj =>
               let c := Int.tdiv nxj g
               let d := Int.tdiv xi g
-              forM (List.range s.gens.length) s (fun s idx =>
-                match get2 s.rows i idx, get2 s.rows j idx with
-                | some x, some y =>
-                  if x = 0 ∧ y = 0 then some s
-                  else if s.small then
-                    match lin2 chk128 a x b y, lin2 chk128 c x d y with
-                    | some xx, some yy =>
-                      match set2 s.rows i idx (xx % (s.h : Int)) with
-                      | none => none
-                      | some rows => (set2 rows j idx (yy % (s.h : Int))).map (fun rows => { s with rows := rows })
-                    | _, _ => none
+              -- for idx in 0..gens.len(): (rows[i][idx], rows[j][idx]) = (a x + b y, c x + d y) mod h
+              match s.rows[i]?, s.rows[j]? with
+              | some ri, some rj =>
+                let comb := fun (p q : Int) (x y : Int) =>
+                  if s.small then (lin2 chk128 p x q y).map (· % (s.h : Int))
                   else
-                    match lin2 chk256 a x b y, lin2 chk256 c x d y with
-                    | some xx, some yy =>
-                      match s.modh256 xx, s.modh256 yy with
-                      | some rx, some ry =>
-                        match set2 s.rows i idx rx with
-                        | none => none
-                        | some rows => (set2 rows j idx ry).map (fun rows => { s with rows := rows })
-                      | _, _ => none
-                    | _, _ => none
-                | _, _ => none)
+                    match lin2 chk256 p x q y with
+                    | none => none
+                    | some v => s.modh256 v
+                let newI := updRange (fun idx x =>
+                    match rj[idx]? with
+                    | none => none
+                    | some y => if x = 0 ∧ y = 0 then some x else comb a b x y) 0 s.gens.length ri 0
+                let newJ := updRange (fun idx y =>
+                    match ri[idx]? with
+                    | none => none
+                    | some x => if x = 0 ∧ y = 0 then some y else comb c d x y) 0 s.gens.length rj 0
+                match newI, newJ with
+                | some ri', some rj' => some { s with rows := (s.rows.set i ri').set j rj' }
+                | _, _ => none
+              | _, _ => none
     | _, _ => none
 
 /-- the triangular update of the 8 multipliers in `eliminate_block` -/
@@ -350,20 +372,21 @@ def St.elimBlock (s : St) (j lo hi : Nat) (upper : Bool) : Option St :=
 
 /-! ### column operations -/
 
-/-- `self.colsub(i, j, k)`: column `i` -= `k` · column `j`, on `rows` and on `q` -/
+/-- one row of `colsub`: `row[i] = modh(row[i] - k * row[j])` -/
+def St.colsubRow (s : St) (i j : Nat) (k : Int) (row : List Int) : Option (List Int) :=
+  match row[i]?, row[j]? with
+  | some yi, some yj => (s.subMulMod yi k yj).map (row.set i ·)
+  | _, _ => none
+
+/-- `self.colsub(i, j, k)`: column `i` -= `k` · column `j`, on the first `gens.len()` rows of `rows`
+and of `q` -/
 def St.colsub (s : St) (i j : Nat) (k : Int) : Option St :=
   if k = 0 then some s
   else
-    forM (List.range s.gens.length) s (fun s idx =>
-      match get2 s.rows idx i, get2 s.rows idx j, get2 s.q idx i, get2 s.q idx j with
-      | some yi, some yj, some qi, some qj =>
-        match s.subMulMod yi k yj, s.subMulMod qi k qj with
-        | some ry, some rq =>
-          match set2 s.rows idx i ry, set2 s.q idx i rq with
-          | some rows, some q => some { s with rows := rows, q := q }
-          | _, _ => none
-        | _, _ => none
-      | _, _, _, _ => none)
+    match updRange (fun _ row => s.colsubRow i j k row) 0 s.gens.length s.rows 0,
+          updRange (fun _ row => s.colsubRow i j k row) 0 s.gens.length s.q 0 with
+    | some rows, some q => some { s with rows := rows, q := q }
+    | _, _ => none
 
 /-- `if self.rows[k][k] == 0 { self.rows[k][k] = self.h }` -/
 def St.zeroToH (s : St) (k : Nat) : Option St :=
@@ -373,7 +396,7 @@ def St.zeroToH (s : St) (k : Nat) : Option St :=
 
 /-- `self.colswap(i, j)` -/
 def St.colswap (s : St) (i j : Nat) : Option St :=
-  match s.rows.mapM (swapIdx · i j), s.q.mapM (swapIdx · i j) with
+  match mapOpt (swapIdx · i j) s.rows, mapOpt (swapIdx · i j) s.q with
   | some rows, some q =>
     let s := { s with rows := rows, q := q }
     match forM (rangeFrom i j) s (fun s k =>
@@ -569,19 +592,29 @@ def St.reduceCols (s : St) : Option St :=
 
 /-! ### reduce -/
 
-/-- the check loops of `reduce`: zero diagonal entries become `h`, the product of the diagonal is
-accumulated, the listed off-diagonal entries must vanish. -/
+/-- `for i in 0..rows.len() { if rows[i][i] == 0 { rows[i][i] = h } }` -/
+def St.zeroAll (s : St) : Option St :=
+  forM (List.range s.rows.length) s (fun s i => s.zeroToH i)
+
+/-- the diagonal of a matrix -/
+def diagList (M : Mat) : Option (List Int) := mapOpt (fun i => get2 M i i) (List.range M.length)
+
+/-- the `assert_eq!(rows[i][j], 0)` of the two check loops: below the diagonal (`full = false`) or
+everywhere off the diagonal (`full = true`) -/
+def offDiagOk (M : Mat) (full : Bool) : Bool :=
+  (List.range M.length).all (fun i =>
+    (if full then (List.range M.length).filter (· ≠ i) else List.range i).all (fun j => get2 M i j = some 0))
+
+/-- the check loops of `reduce`: zero diagonal entries become `h`, the (saturating) product of the
+diagonal is accumulated, the listed off-diagonal entries must vanish. The three actions of the loop
+body only touch/read disjoint cells, so they are modelled one after the other. -/
 def St.checkDiag (s : St) (full : Bool) : Option (St × Int) :=
-  forM (List.range s.rows.length) (s, (1 : Int)) (fun (s, det) i =>
-    match s.zeroToH i with
+  match s.zeroAll with
+  | none => none
+  | some s =>
+    match diagList s.rows with
     | none => none
-    | some s =>
-      match get2 s.rows i i with
-      | none => none
-      | some d =>
-        let det := satMul128 det d
-        let cols := if full then (List.range s.rows.length).filter (· ≠ i) else List.range i
-        if cols.all (fun j => get2 s.rows i j = some 0) then some (s, det) else none)
+    | some ds => if offDiagOk s.rows full then some (s, ds.foldl satMul128 1) else none
 
 /-- the `HACK` of `reduce` (orphan generator with relation p^2) -/
 def St.hack (s : St) (det : Int) : Option (St × Int) :=
